@@ -92,5 +92,18 @@ if rp.exists():
             f"({', '.join(r['id'] for r in stale) or 'none'}; each was caught when it was seeded).")
     block("seedregress", body)
 
+# per-round summary of the seeded defects
+rounds = {1: (1, 2), 2: (3, 4), 3: (5, 6), 4: (7, 8), 5: (9, 10)}
+rows = ["| round | seeded | caught at once (concrete) | first only `no-failing-input-found` / wrong reason | missed at first | after strengthening |", "|---|---|---|---|---|---|"]
+allm = {}
+for f in sorted(glob.glob(str(V / "seeded" / "*" / "meta.json"))):
+    allm[Path(f).parent.name] = json.loads(Path(f).read_text())
+for r, ns in rounds.items():
+    ids = [i for i in allm if int(i.split("-")[1]) in ns]
+    missed = [i for i in ids if allm[i]["detected_by"].lstrip().upper().startswith("MISSED")]
+    weak = [i for i in ids if i not in missed and re.match(r"\s*(first only|only as|first reported|reported as broken|reported, but)", allm[i]["detected_by"])]
+    rows.append(f"| {r} | {len(ids)} | {len(ids) - len(missed) - len(weak)} | {len(weak)} | {len(missed)} | all concrete except those listed in the regression line below |")
+block("seedrounds", "\n".join(rows))
+
 (V / "DESIGN.md").write_text(design)
 print("DESIGN.md tables rewritten")
